@@ -34,18 +34,25 @@ Theorem c02_complete : forall pw nonce,
   verify_decoded H (Some (stored_of H pw)) (scramble H pw nonce) nonce = true.
 Proof. exact (verify_complete H H_len). Qed.
 
-(* acceptance <=> the first 20 bytes of the response XOR H(nonce ++ stored) is a pre-image of the stored secret *)
+(* acceptance <=> the response carries a whole 20-byte proof and its first 20 bytes XOR H(nonce ++ stored) is a pre-image
+   of the stored secret *)
 Theorem c02_sound : forall stored response nonce,
   verify_decoded H (Some stored) response nonce = true <->
-  H (xor_bytes (firstn 20 response) (H (nonce ++ stored))) = stored.
+  (20 <= length response)%nat /\ H (xor_bytes (firstn 20 response) (H (nonce ++ stored))) = stored.
 Proof. exact (verify_accepts_iff_preimage H H_len). Qed.
+
+(* a response shorter than a proof is refused whatever the stored secret - also the hash of a short string, which a
+   truncated XOR would otherwise reach (a stored SHA1("") accepting the empty response) *)
+Theorem c02_short_response_never_accepts : forall stored response nonce, (length response < 20)%nat ->
+  verify_decoded H (Some stored) response nonce = false.
+Proof. exact (short_never_verifies H). Qed.
 
 Theorem c02_malformed_hash_never_accepts : forall response nonce, verify_decoded H None response nonce = false.
 Proof. exact (malformed_never_accepts H). Qed.
 
 (* a response captured under another nonce: accepted only together with a collision of H *)
 Theorem c02_replay_needs_collision : forall stored response n1 n2,
-  (20 <= length response)%nat -> n1 <> n2 -> length n1 = length n2 ->
+  n1 <> n2 -> length n1 = length n2 ->
   verify_decoded H (Some stored) response n1 = true -> verify_decoded H (Some stored) response n2 = true ->
   exists a b, a <> b /\ H a = H b.
 Proof. exact (replay_needs_collision H H_len). Qed.
